@@ -176,6 +176,11 @@ pub mod soapysdr_source;
 pub mod block;
 pub mod blocks;
 pub mod circular_buffer;
+/// Verification hooks and stand-ins (verification builds only).
+#[cfg(rustradio_verif)]
+pub mod verif {
+    include!(concat!(env!("RUSTRADIO_VERIF_DIR"), "/hooks/verif_mod.rs"));
+}
 pub mod graph;
 pub mod mtgraph;
 pub mod stream;
@@ -637,4 +642,9 @@ pub mod tests {
         assert!(!environment_str(&check_environment()?).is_empty());
         Ok(())
     }
+}
+
+#[cfg(rustradio_verif)]
+pub mod verif_access {
+    include!(concat!(env!("RUSTRADIO_VERIF_DIR"), "/access/lib.rs"));
 }
